@@ -83,6 +83,9 @@ def eval_case(spec, case, traces, out, record=True):
         for msg in spec.oracle(case, trace, backend):
             probs.append(("oracle", f"{backend}: {msg}", backend, None))
         for (o, ri, rm) in trace:
+            if o.startswith("mark harness-hang"):
+                probs.append(("oracle", f"{backend}: the implementation stopped answering: no response within the time limit ({o.split()[2].replace('_', ' ')})", backend, None))
+                break
             if o.startswith("mark harness-panic"):
                 # the harness could not observe the implementation (a dump / walk / bookkeeping step met
                 # an error that never occurs on a store the property allows)
@@ -154,6 +157,7 @@ def run_l1_property(spec, tier, seed, replay=None, proof=None):
     okh, binp, hlog = build.build_harness()
     if not okh:
         raise RuntimeError("harness build failed:\n" + hlog)
+    os.environ.setdefault("TSS_SHARD_TIMEOUT", "300" if tier != "thorough" else "3000")
     rng = random.Random(seed)
     if replay:
         rp = json.load(open(replay))
